@@ -63,6 +63,11 @@ fn write_node(n: &Node, st: &Style, s: &mut String, parent: &str) {
     if n.kids.is_empty() && n.text == 0 {
         if st.short_empty {
             s.push_str("/>");
+        } else if st.comments {
+            // an element whose only content is a comment
+            s.push_str("><!--only a comment--></");
+            s.push_str(&n.name);
+            s.push('>');
         } else {
             s.push_str("></");
             s.push_str(&n.name);
